@@ -1060,6 +1060,23 @@ def _sample_box(fns, M=None, n=2000):
     return box, boxes, big
 
 
+_CTOL = [1e-9]  # containment tolerance factor in force (set per case by _c08_eval; see _noisy_arcs)
+
+
+def _noisy_arcs(obj):
+    """Does the case contain an endpoint-form arc with lambda >= 1 - 1e-9 (radii scaled up / exactly sufficient)? Its centre
+    is sqrt(rounding noise) ~ 1e-8 radii away from the exact one in ANY float implementation (see C05), so the oracle's
+    arc and the library's arc legitimately differ by that much."""
+    if isinstance(obj, dict):
+        if obj.get("t") == "E":
+            c = f65.endpoint_to_center(obj["s"][0], obj["s"][1], obj["rx"], obj["ry"], obj["rot"], obj["fa"], obj["fs"], obj["e"][0], obj["e"][1])
+            return c["kind"] == "arc" and c["lam"] >= 1.0 - 1e-9
+        return any(_noisy_arcs(v) for v in obj.values())
+    if isinstance(obj, list):
+        return any(_noisy_arcs(v) for v in obj)
+    return False
+
+
 def _judge_box(got, want, delta, S):
     """Classify a reported box against the oracle box grown by delta. Returns None or (class, text)."""
     if got is None:
@@ -1072,13 +1089,13 @@ def _judge_box(got, want, delta, S):
     w = (want[0] - delta, want[1] - delta, want[2] + delta, want[3] + delta)
     inside = max(g[0] - w[0], g[1] - w[1], w[2] - g[2], w[3] - g[3])  # > 0: geometry sticks out of the reported box
     outside = max(w[0] - g[0], w[1] - g[1], g[2] - w[2], g[3] - w[3])  # > 0: reported box is loose
-    if inside > 1e-9 * S or outside > 1e-6 * S:
+    if inside > _CTOL[0] * S or outside > 1e-6 * S:
         if delta == 0.0 or True:
             # a uniform offset on all four sides means only the stroke growth is wrong
             offs = (want[0] - g[0], want[1] - g[1], g[2] - want[2], g[3] - want[3])
             if max(offs) - min(offs) <= 1e-6 * S and abs(offs[0] - delta) > 1e-6 * S:
                 return ("stroke-growth", "bbox()=%r grows the geometry box %r by %g on every side, expected %g" % (g, want, offs[0], delta))
-        if inside > 1e-9 * S:
+        if inside > _CTOL[0] * S:
             return ("not-containing", "bbox()=%r misses geometry by %g (oracle box %r grown by %g)" % (g, inside, want, delta))
         return ("not-tight", "bbox()=%r is loose by %g (oracle box %r grown by %g)" % (g, outside, want, delta))
     return None
@@ -1203,6 +1220,7 @@ def _use_doc(o):
 
 
 def _c08_eval(mod, case):
+    _CTOL[0] = 1e-7 if _noisy_arcs(case) else 1e-9
     obj = case["obj"]
     tr = bool(case.get("transformed", True))
     ws = bool(case.get("with_stroke", False))
@@ -1619,7 +1637,8 @@ def c08_bbox(mod, tier, seed):
              "transformed x with_stroke; basic shapes; groups (one nesting level); <use> through SVG.parse. Oracle: >=2000 samples per "
              "segment (1000 inside groups/use) + golden-section refinement per side. distinct = every generated case (random "
              "coordinates); non-trivial = all but the single-point lines; classes: %s" % (sorted(classes.items()),),
-        bound="containment 1e-9*S, tightness 1e-6*S (S = largest |coordinate| of the sampled geometry + stroke), stroke growth = "
+        bound="containment 1e-9*S (1e-7*S when the object contains an endpoint-form arc with lambda >= 1-1e-9, whose centre is only "
+              "determined to sqrt(eps)), tightness 1e-6*S (S = largest |coordinate| of the sampled geometry + stroke), stroke growth = "
               "stroke_width*sqrt(|det|)/2 (transformed) or stroke_width/2, only when stroke is a paint; quick sizes as in classes",
         distinct=col.evaluations - 1, samples=samples, t0=t0)
 
